@@ -425,6 +425,22 @@ fn walk_graph(g: &Graph, depth: usize, path: &str, w: &mut Walk, region: Option<
             }
             Node::Operator(op) => {
                 w.n_ops += 1;
+                // An operator writes values: an output that names a constant (or an
+                // operator) makes the constant's data depend on which of the two the
+                // executor happens to read - not a well-formed constant.
+                for out_id in op.output_ids().iter().flatten() {
+                    match g.get_node(*out_id) {
+                        Some(Node::Value(_)) => {}
+                        Some(Node::Constant(c)) => w.bad.push(format!(
+                            "constant_is_operator_output|{}op#{} writes to const#{}({:?})",
+                            path,
+                            id.as_u32(),
+                            out_id.as_u32(),
+                            c.name().unwrap_or("")
+                        )),
+                        _ => w.bad.push(format!("operator_output_not_a_value|{}op#{} output #{}", path, id.as_u32(), out_id.as_u32())),
+                    }
+                }
                 if let Some(sg) = op.operator().as_subgraph_op() {
                     for (i, sub) in sg.subgraphs().into_iter().enumerate() {
                         walk_graph(sub, depth + 1, &format!("{}op#{}.sub{}/", path, id.as_u32(), i), w, region);
